@@ -28,12 +28,12 @@ ASSUMPTIONS = ['frames whose columns cannot be coerced to the required dtypes ar
 ROWS = [(c, dt, h, t) for c in ('a', 'b') for dt in (-1.0, 0.0) for h in (None, 100.0) for t in (-1, 0, 1, 2)]
 REQ = ['ceilo', 'dt', 'height', 'type']
 VARIANTS = ['plain', 'drop:ceilo', 'drop:dt', 'drop:height', 'drop:type', 'extra_const', 'extra_differs', 'ceilo_object', 'dt_text',
-            'dt_int', 'type_float', 'type_int8', 'f32', 'nullable', 'colorder']
+            'dt_int', 'type_float', 'type_int8', 'f32', 'nullable', 'colorder', 'dupindex', 'concatindex', 'negzero']
 
 
 def bound(tier):
     return 'all frames <= 3 rows plain (33 824); all frames <= 2 rows x %d layout variants%s' % (
-        len(VARIANTS), '' if tier == 'quick' else '; all frames <= 3 rows x 6 layout variants')
+        len(VARIANTS), '' if tier == 'quick' else '; all frames <= 3 rows x 9 layout variants')
 
 
 def cases(tier):
@@ -43,6 +43,7 @@ def cases(tier):
         out.append({'first': i, 'maxlen': 2, 'variants': VARIANTS[1:], 'ctor': True})
         if tier != 'quick':
             out.append({'first': i, 'maxlen': 3, 'variants': ['extra_differs', 'dt_text', 'f32', 'nullable', 'drop:type', 'colorder']})
+            out.append({'first': i, 'maxlen': 3, 'variants': ['dupindex', 'concatindex', 'negzero']})
     out.append({'nonframes': True})
     return out
 
@@ -92,6 +93,18 @@ def make(rows, variant):
         return df
     if variant == 'colorder':
         return df[['type', 'height', 'ceilo', 'dt']]
+    if variant == 'dupindex':            # index labels are not part of the format: all rows share one label
+        df.index = [0] * len(df)
+        return df
+    if variant == 'concatindex':         # labels as left by pd.concat of one frame per hit type
+        cnt, lab = {}, []
+        for t in df['type'].tolist():
+            lab.append(cnt.get(t == 0 or t == -1, 0)); cnt[t == 0 or t == -1] = cnt.get(t == 0 or t == -1, 0) + 1
+        df.index = lab
+        return df
+    if variant == 'negzero':             # the same time stamp written as 0.0 and as -0.0 (equal values)
+        df['dt'] = [(-0.0 if (v == 0 and i % 2) else v) for i, v in enumerate(df['dt'].tolist())]
+        return df
     raise ValueError(variant)
 
 
